@@ -422,7 +422,8 @@ pub fn check_huge(c: &HugeC) -> Result<(), String> {
 }
 
 fn huge_items(tier: Tier) -> Box<dyn Iterator<Item = HugeC>> {
-    let mut v = vec![HugeC { variant: 0, mask: Level::Avx512, prefix: 1, len: (1u64 << 31) + 1024, out_len: 200_000 }];
+    // 2^31+1024 after a 1-byte prefix, and exactly 2^32 bytes in one call (size_t helpers at the 32-bit boundary)
+    let mut v = vec![HugeC { variant: 0, mask: Level::Avx512, prefix: 1, len: (1u64 << 31) + 1024, out_len: 200_000 }, HugeC { variant: 1, mask: Level::Avx512, prefix: 0, len: 1u64 << 32, out_len: 64 }];
     if tier == Tier::Thorough {
         v.push(HugeC { variant: 1, mask: Level::Avx512, prefix: 0, len: (1u64 << 32) + 1, out_len: 1_000_000 });
         v.push(HugeC { variant: 0, mask: Level::Avx2, prefix: 1025, len: 1u64 << 32, out_len: 64 });
@@ -435,7 +436,7 @@ pub fn subs() -> Vec<Box<dyn DynSub>> {
     vec![
         Box::new(crate::runner::EnumSub::<HugeC> {
             name: "c-huge",
-            rule: "enumeration: one blake3_hasher_update of 2^31+1024 bytes (quick) / 2^32+1, 2^32, 2^32+5123 bytes (thorough) after a short prefix, and finalize_seek of up to 1 MB of output; vs spec (size_t arithmetic beyond 32 bits)",
+            rule: "enumeration: one blake3_hasher_update of 2^31+1024 bytes and one of exactly 2^32 bytes (quick) / 2^32+1, 2^32, 2^32+5123 bytes (thorough) after a short prefix, and finalize_seek of up to 1 MB of output; vs spec (size_t arithmetic beyond 32 bits)",
             items: huge_items,
             classify: |c| Classes::new(true).tag(c.len >= (1u64 << 32), "update>=2^32-bytes").tag(c.out_len >= 100_000, "out_len>=100000"),
             check: check_huge,
